@@ -251,6 +251,12 @@ func (t *Term) render() string {
 			base += "." + canonField(seg)
 		}
 		return base
+	case "strv":
+		parts := []string{}
+		for _, a := range t.Args {
+			parts = append(parts, a.String())
+		}
+		return "text[" + strings.Join(parts, ",") + "]"
 	case "closure":
 		return "closure:" + t.Fn.Name()
 	case "tuple":
